@@ -1016,6 +1016,39 @@ func (r *Run) DoDisk(d *DiskOp) {
 		}
 		f.Close()
 		r.W.Count.Inc("fault.inflated_log")
+	case "merge_cycle":
+		// a hand-merged log: two branches each recorded one direction of a
+		// dependency between two children of one epic. Each was valid alone;
+		// the union holds a cycle that no CLI path could have created.
+		var pair []string
+		for _, e := range r.M.Epics() {
+			var kids []string
+			for _, t := range r.M.Tasks() {
+				if t.Epic == e.ID && !finished(t.State) {
+					kids = append(kids, t.ID)
+				}
+			}
+			if len(kids) >= 2 {
+				pair = kids[:2]
+				break
+			}
+		}
+		b, err := os.ReadFile(lp)
+		if pair == nil || err != nil || (len(b) > 0 && b[len(b)-1] != '\n') {
+			break
+		}
+		f, err := os.OpenFile(lp, os.O_APPEND|os.O_WRONLY, 0o644)
+		if err != nil {
+			break
+		}
+		for _, p := range [][2]string{{pair[0], pair[1]}, {pair[1], pair[0]}} {
+			t := fmtTS(r.W.Clock.Next())
+			fmt.Fprintf(f, `{"type":"link","ts":%q,"data":{"from_id":%q,"to_id":%q,"type":"depends"}}`+"\n", t, p[0], p[1])
+			r.M.Items[p[0]].Deps[p[1]] = true
+		}
+		f.Close()
+		r.W.Count.Inc("fault.merge_cycle")
+		r.Faults++
 	case "merge_pruned":
 		// a hand-merged log: the events that mention one pruned id (create,
 		// updates, links, tombstone) appear in a different order. The id must
